@@ -208,7 +208,7 @@ func followFullDropEmit(k int) scenario {
 		b.emit(0, 0, v)
 	}
 	// 1 first + 1 held + the 10 buffered follow-ups (the one in the reader's hand is lost)
-	return b.add(op{S: 0, K: "waitwriter"}).add(op{S: 0, K: "release"}).
+	return b.add(op{S: 0, K: "waitwriter", V: 3000}).add(op{S: 0, K: "release"}).
 		add(op{S: 0, K: "waithandled", V: 12}).sc
 }
 
@@ -244,7 +244,7 @@ func hookReaderForward(p int) scenario {
 		add(op{S: 0, K: "gate", P: "ws.readerForward"}).
 		add(op{S: 0, K: "sendn", C: 0, V: 1}).
 		add(op{S: 0, K: "waithit"}).
-		end(0, 0).add(op{S: 0, K: "waitwriter"}).
+		end(0, 0).add(op{S: 0, K: "waitwriter", V: 3000}).
 		add(op{S: 0, K: "ungate"}).sc
 }
 
